@@ -106,48 +106,45 @@ def expected(elems, rankings, kind: str, use_bucket_id: bool):
     return out
 
 
+KIND_TABLES = {
+    "UNI1": [[0., 1., 1., 0., 1., 1.], [1., 1., 0., 1., 1., 0.]],
+    "UNI05": [[0., 1., .5, 0., 1., .5], [.5, .5, 0., .5, .5, 0.]],
+    "IND1": [[0., 1., 1., 0., 0., 0.], [1., 1., 0., 0., 0., 0.]],
+    "IND05": [[0., 1., .5, 0., 0., 0.], [.5, .5, 0., 0., 0., 0.]],
+    "PSE1": [[0., 1., 1., 0., 1., 0.], [1., 1., 0., 1., 1., 0.]],
+    "PSE05": [[0., 1., .5, 0., 1., 0.], [.5, .5, 0., .5, .5, 0.]],
+    "EXT": [[0., 1., 0., 0., 0., 0.], [1., 1., 0., 1., 1., 1.]],
+}
+_WORLD = {}
+
+
 def eval_borda(proj: Project, elems, rankings, kind: str, use_bucket_id: bool):
+    """The real BordaCount on a real Dataset under a real scheme of the given family (also a multiple of it)."""
+    from .datamodel import World
+    if id(proj) not in _WORLD:
+        _WORLD.clear()
+        w_ = World(proj)
+        w_.rt.funcs["print"] = lambda ev, call: None
+        _WORLD[id(proj)] = w_
+    w = _WORLD[id(proj)]
     cls = proj.cls(MOD, "BordaCount")
+    SS = proj.cls("corankco.scoringscheme", "ScoringScheme")
     comp = proj.method(cls, "compute_consensus_rankings")
-    pred = proj.method(cls, "is_scoring_scheme_relevant_when_incomplete_rankings")
-    complete = all(set().union(*r) == set(elems) if r else False for r in rankings)
-    uni = []
-    for r in rankings:
-        dom = set().union(*r) if r else set()
-        miss = set(elems) - dom
-        uni.append([set(b) for b in r] + ([miss] if miss else []))
-    log = {"unified_used": False}
-
-    def unified(ev, call, a, kw):
-        log["unified_used"] = True
-        return uni
-    ds = Obj("DS", {"is_complete": complete, "rankings": [[set(b) for b in r] for r in rankings]},
-             {"unified_rankings": unified})
-    scheme = Obj("SCHEME", methods={"is_equivalent_to": lambda ev, call, a, kw: a[0] == kind})
-    me = Obj("SELF", {"_use_bucket_id_not_bucket_size": use_bucket_id})
-    me.methods["is_scoring_scheme_relevant_when_incomplete_rankings"] = \
-        lambda ev, call, a, kw: ev.call_user(pred.node, [me] + a, kw)
-    me.methods["get_full_name"] = lambda ev, call, a, kw: "NAME"
+    log = {"unified_used": None}
+    tbl = KIND_TABLES[kind]
+    ds = w.dataset(rankings)
+    sch = w.rt.new(SS, [[list(tbl[0]), list(tbl[1])]], {})
+    alg = w.rt.new(cls, [], {"use_bucket_id": True} if use_bucket_id else {})
     captured: Dict = {}
-
-    def consensus(ev, call):
-        names = ["consensus_rankings", "dataset", "scoring_scheme", "att"]
-        kw = {k.arg: ev.ev(k.value) for k in call.keywords}
-        for i, a in enumerate(call.args):
-            kw[names[i]] = ev.ev(a)
-        captured.update(kw)
-        return "CONSENSUS"
-    funcs = {"Consensus": consensus, "Ranking": lambda ev, call: ("Ranking", ev.ev(call.args[0])),
-             "groupby": groupby_hook, "itertools.groupby": groupby_hook}
-    funcs.update(preset_hooks())
-    evl = Evaluator({}, funcs)
-    evl.attr_fallback = lambda d: d if d.startswith("ConsensusFeature.") else None
     try:
-        evl.call_user(comp.node, [me, ds, scheme])
+        c = w.rt.call_method(alg, "compute_consensus_rankings", ds, sch, True)
     except AbsRaise as r:
         return ("raise", r.exc_name.split(".")[-1]), captured, log
     except Unsupported as exc:
         raise AnalysisError(f"{comp.qualname}: unsupported construct line {getattr(exc.node, 'lineno', '?')}: {exc}")
+    rks = c.attrs.get("_consensus_rankings")
+    if isinstance(rks, list):
+        captured["consensus_rankings"] = [("Ranking", [{e.attrs["_value"] for e in b} for b in r.attrs["_buckets"]]) for r in rks]
     return ("ok", None), captured, log
 
 
@@ -190,18 +187,22 @@ def run(ctx) -> Result:
                       ok_detail=f"{len(kinds)} scheme families agree with the mean-score definition",
                       bad_detail=(f"scheme family {bad[0]} on {rankings}: consensus {bad[1]!r}, definition {bad[2]!r} "
                                   f"(unified rankings used: {bad[3]})") if bad else "")
-    # B5: the predicate is exactly the disjunction of the four accepted equivalences
-    for kind in kinds + ["PSE05"]:
-        scheme = Obj("SCHEME", methods={"is_equivalent_to": lambda ev, call, a, kw, kind=kind: a[0] == kind})
-        evl = Evaluator({}, preset_hooks())
-        try:
-            got = evl.call_user(pred.node, [Obj("SELF"), scheme])
-        except Unsupported as exc:
-            raise AnalysisError(f"{pred.qualname}: unsupported construct: {exc}")
-        if kind in ("PSE05",):
-            continue
-        res.check(bool(got) == (kind in RELEVANT), "B5", f"BordaCount.predicate:{kind}", pred.loc(),
-                  ok_detail=f"{kind}: {bool(got)}", bad_detail=f"predicate says {got!r} for family {kind}")
+    # B5: the predicate is exactly the disjunction of the four accepted equivalences (real instances, multiples too)
+    from .datamodel import World
+    w = World(proj)
+    SS = proj.cls("corankco.scoringscheme", "ScoringScheme")
+    alg = w.rt.new(cls, [], {})
+    for kind in kinds:
+        bad = None
+        for factor in (1.0, 3.0, 0.25):
+            tbl = [[x * factor for x in KIND_TABLES[kind][0]], [x * factor for x in KIND_TABLES[kind][1]]]
+            sch = w.rt.new(SS, [[tbl[0], tbl[1]]], {})
+            st, got = w.safe("predicate", w.call, alg, "is_scoring_scheme_relevant_when_incomplete_rankings", sch)
+            if st != "ok" or bool(got) != (kind in RELEVANT):
+                bad = bad or (factor, got)
+        res.check(bad is None, "B5", f"BordaCount.predicate:{kind}", pred.loc(),
+                  ok_detail=f"{kind} (and its multiples): {kind in RELEVANT}",
+                  bad_detail=f"predicate says {bad[1]!r} for {bad[0]} x family {kind}" if bad else "")
     from . import C19
     C19.check_equivalence(res, proj, False, "B5")
     res.not_decided.append("that equal means compare equal in floating point (IEEE division is correctly rounded; argued)")
